@@ -7,9 +7,11 @@
 //     <trans> = 0                   harness-defined density  c / (1 + |cur − A prev − b|²), A b c per step
 //             | 1 T qtilde          the shipped WhiteNoiseAcceleration (n = 2, 4, 6)
 //     <set>   = states(n×k) means(n×k) covs(n×nk) logweights(k)
-//     <step>  = P skip F(n×n) Q(n×n) [exo: exoSkip G(n×n) g(n)]
-//             | C skip move inplace H(m×n) R(m×m) [trans 0: A(n×n) b(n) c] y(m) valid <lik>
-//     <lik>   = 0 l(k) | 1 c(k) a(n) | 2 scale          (2 = the shipped GaussianLikelihood)
+//     <step>  = P skip hand F(n×n) Q(n×n) [exo: exoSkip G(n×n) g(n)]
+//             | C skip hand inplace H(m×n) R(m×m) [trans 0: A(n×n) b(n) c] y(m) valid <lik>
+//     <lik>   = 0 l(k) | 1 c(k) a(n) | 2 scale fail(0..4: which call of the measurement model fails)          (2 = the shipped GaussianLikelihood)
+//     hand    = 0 | 1 move-construct the GPF object first | 2 move-assign it over a differently configured one
+//   After the steps: [R k' <set> nsteps <step>*]* — further segments with another number of particles, same objects.
 //   All models may change from step to step (same sizes): the model objects read them from a script.
 //
 // One GPFPrediction and one GPFCorrection object live through the whole history (so the random
@@ -47,6 +49,7 @@ struct Script {
     // the models of the current step (they may change from step to step at fixed sizes)
     MatrixXd F, Q, H, R, A, G; VectorXd b, g; double c = 1.0;
     VectorXd y; bool lik_valid = true; int lik_kind = 0; VectorXd lik_c, lik_a;
+    int meas_fail = 0;   // 1 measure, 2 predictedMeasure, 3 innovation, 4 noise covariance reports failure
     // what the likelihood model returned in its last call (recorded by the harness-defined models)
     int rec_calls = 0; bool rec_valid = false; VectorXd rec_l;
     std::pair<bool, VectorXd> record(std::pair<bool, VectorXd> r) { ++rec_calls; rec_valid = r.first; rec_l = r.second; return r; }
@@ -75,9 +78,17 @@ struct HExo : public ExogenousModel {
 struct HMeas : public LinearMeasurementModel {
     explicit HMeas(std::shared_ptr<Script> s) : s_(s) {}
     MatrixXd getMeasurementMatrix() const override { return s_->H; }
-    std::pair<bool, MatrixXd> getNoiseCovarianceMatrix() const override { return std::make_pair(true, s_->R); }
+    std::pair<bool, MatrixXd> getNoiseCovarianceMatrix() const override { return std::make_pair(s_->meas_fail != 4, s_->R); }
     bool freeze(const Data&) override { return true; }
-    std::pair<bool, Data> measure(const Data&) const override { MatrixXd y = s_->y; return std::make_pair(true, Data(y)); }
+    std::pair<bool, Data> measure(const Data&) const override { MatrixXd y = s_->y; return std::make_pair(s_->meas_fail != 1, Data(y)); }
+    std::pair<bool, Data> predictedMeasure(const Ref<const MatrixXd>& x) const override {
+        if (s_->meas_fail == 2) return std::make_pair(false, Data());
+        return LinearMeasurementModel::predictedMeasure(x);
+    }
+    std::pair<bool, Data> innovation(const Data& p, const Data& y) const override {
+        if (s_->meas_fail == 3) return std::make_pair(false, Data());
+        return LinearMeasurementModel::innovation(p, y);
+    }
     VectorDescription getInputDescription() const override { return VectorDescription(s_->H.cols(), 0, s_->R.rows()); }
     VectorDescription getMeasurementDescription() const override { return VectorDescription(s_->H.rows()); }
     std::shared_ptr<Script> s_;
@@ -187,6 +198,13 @@ static std::string gpfh(Toks& t) {
     script->G = MatrixXd::Zero(n, n); script->g = VectorXd::Zero(n);
     // likelihood kind is fixed by the first correction that names it; read ahead lazily: the objects
     // are built on first use
+    // a differently configured set of models, only ever used as the *target* of a move assignment
+    auto decoy = std::make_shared<Script>();
+    decoy->F = MatrixXd::Identity(n, n) * 3.0; decoy->Q = MatrixXd::Identity(n, n) * 7.0;
+    decoy->H = MatrixXd::Ones(m, n); decoy->R = MatrixXd::Identity(m, m) * 5.0; decoy->y = VectorXd::Constant(m, 9.0);
+    decoy->A = MatrixXd::Zero(n, n); decoy->b = VectorXd::Constant(n, 2.0); decoy->c = 11.0;
+    decoy->G = MatrixXd::Zero(n, n); decoy->g = VectorXd::Zero(n);
+    decoy->lik_kind = 0; decoy->lik_c = VectorXd::Constant(k, 7.0);
     std::unique_ptr<GPFPrediction> gpfp;
     GaussianPrediction* wrappedP = nullptr;
     std::unique_ptr<GaussianPrediction> directP;
@@ -206,6 +224,7 @@ static std::string gpfh(Toks& t) {
         o.m(w->getStateTransitionMatrix()); o.m(w->getNoiseCovarianceMatrix());
     }
 
+    for (;;) {
     for (long s = 0; s < nsteps; ++s) {
         std::string kind = t.tok();
         bool skip = t.flag();
@@ -215,6 +234,7 @@ static std::string gpfh(Toks& t) {
         dout.mean().setConstant(12345.0); dout.covariance().setConstant(-54321.0); dout.weight().setConstant(-999.0);
         ParticleSet in0 = cur;
         if (kind == "P") {
+            int hand = (int)t.nat();
             // this step's state model: F, Q and (if attached) the exogenous law u(x) = G x + g
             script->F = t.mat(n, n); script->Q = t.mat(n, n);
             bool exoSkip = false;
@@ -225,6 +245,14 @@ static std::string gpfh(Toks& t) {
                 gpfp.reset(new GPFPrediction(std::move(w)));
                 directP = makePred(predKind, script, exo, alpha, beta, kappa);
             }
+            if (hand == 1) {            // move-construct into a new object, destroy the source
+                std::unique_ptr<GPFPrediction> moved(new GPFPrediction(std::move(*gpfp)));
+                gpfp = std::move(moved);
+            } else if (hand == 2) {     // move-assign over a differently configured object
+                std::unique_ptr<GPFPrediction> other(new GPFPrediction(makePred(1 - predKind, decoy, false, 1.0, 2.0, 1.0)));
+                *other = std::move(*gpfp);
+                gpfp = std::move(other);
+            }
             wrappedP->skip("prediction", skip);
             directP->skip("prediction", skip);
             if (exo && !skip) { wrappedP->skip("exogenous", exoSkip); directP->skip("exogenous", exoSkip); }
@@ -234,7 +262,7 @@ static std::string gpfh(Toks& t) {
             o.m(dout.mean()); o.m(dout.covariance());
             o.s(sameSet(in0, cur) ? "in-same" : "in-modified");
         } else if (kind == "C") {
-            bool mv = t.flag();
+            int mv = (int)t.nat();
             bool inplace = t.flag();
             // this step's measurement model and transition density
             script->H = t.mat(m, n); script->R = t.mat(m, m);
@@ -245,8 +273,9 @@ static std::string gpfh(Toks& t) {
             double scale = 1.0;
             if (lk == 0) { script->lik_kind = 0; script->lik_c = t.vec(k); }
             else if (lk == 1) { script->lik_kind = 1; script->lik_c = t.vec(k); script->lik_a = t.vec(n); }
-            else if (lk == 2) { scale = t.dbl(); }
+            else if (lk == 2) { scale = t.dbl(); script->meas_fail = (int)t.nat(); }
             else throw vh::BadArgs("likKind");
+            if (lk != 2) script->meas_fail = 0;
             if (!gpfc) {
                 std::unique_ptr<GaussianCorrection> w = makeCorr(corrKind, script, alpha, beta, kappa, sub);
                 wrappedC = w.get();
@@ -256,7 +285,16 @@ static std::string gpfh(Toks& t) {
                 gpfc.reset(new GPFCorrection(std::move(lm), std::move(w), makeTrans(transKind, n, script, T, qt), seed));
                 directC = makeCorr(corrKind, script, alpha, beta, kappa, sub);
             } else if (((lk == 2) ? 2 : 0) != builtLikKind) throw vh::BadArgs("likKind-changed");
-            if (mv) {   // move-construct the correction into a new object and destroy the source: the
+            if (mv == 2) {  // move-assign over a differently configured object (own likelihood model, own
+                            // Gaussian correction, own transition model, other seed): the target must
+                            // from now on behave as the source did
+                std::unique_ptr<LikelihoodModel> dl(new HLik(decoy));
+                std::unique_ptr<GPFCorrection> other(new GPFCorrection(std::move(dl), makeCorr(0, decoy, 1.0, 2.0, 0.0, 1),
+                                                                       std::unique_ptr<StateModel>(new HTrans(decoy)), seed + 17u));
+                *other = std::move(*gpfc);
+                gpfc = std::move(other);
+            }
+            if (mv == 1) {   // move-construct the correction into a new object and destroy the source: the
                         // random stream must simply continue
                 std::unique_ptr<GPFCorrection> moved(new GPFCorrection(std::move(*gpfc)));
                 gpfc = std::move(moved);
@@ -280,7 +318,7 @@ static std::string gpfh(Toks& t) {
             for (long i = 0; i < n * k; ++i) z(i) = twin_nd(twin);
             o.m(z);
             // what the likelihood model returned (recorded by the harness-defined model itself)
-            o.n(script->rec_calls);
+            o.n(script->rec_calls); o.n(decoy->rec_calls); decoy->rec_calls = 0;
             if (script->rec_calls > 0 && script->rec_valid) {
                 o.s("lik"); o.n(script->rec_l.size()); o.m(script->rec_l);
                 VectorXd tp = directT->getTransitionProbability(cur.state(), out.state());
@@ -294,6 +332,16 @@ static std::string gpfh(Toks& t) {
             o.s(valid ? "glik" : "gnolik"); o.n(valid ? lik.size() : 0); if (valid) o.m(lik);
         } else throw vh::BadArgs("step");
         cur = out;
+    }
+    // a further segment: the same objects (and random stream) go on with a particle set of another size
+    if (t.empty()) break;
+    if (t.tok() != "R") throw vh::BadArgs("segment");
+    k = t.nat();
+    cur = ParticleSet(k, n);
+    readSet(t, cur, n, k);
+    nsteps = t.nat();
+    decoy->lik_c = VectorXd::Constant(k, 7.0);
+    o.s("R");
     }
     t.done();
     return o.str();
